@@ -145,6 +145,10 @@ fn oracle(sc: &Scenario, obs: &mut Obs) -> Check {
 
 // ---- a small enumerated family: every call form x interrupt / rebind behaviour of the partial
 
+pub fn enumerated_scenarios() -> Vec<Scenario> {
+    enumerated()
+}
+
 fn enumerated() -> Vec<Scenario> {
     let mut out = Vec::new();
     let pl = Tr::PLAIN;
